@@ -267,6 +267,17 @@ def main(cli_argv=None, return_args=False):
                 "--truth must be an existent file. Got: {!r}".format(truth_file)
             )
 
+        for fun_name in "argparse_function", "class", "function":
+            if (
+                getattr(args, pluralise(fun_name)) is not None
+                and getattr(args, "{}_names".format(fun_name)) is None
+            ):
+                _parser.error(
+                    "--{name}-name must be specified with --{name}".format(
+                        name=fun_name.replace("_", "-")
+                    )
+                )
+
         return args if return_args else ground_truth(args, truth_file)
     elif command == "sync_properties":
         for fname in "input_filename", "output_filename":
